@@ -363,8 +363,8 @@ func flight3Generate(
 		extensions = append(extensions, &extension12.ExtendedMasterSecret{})
 	}
 
-	if len(cfg.ServerName) > 0 {
-		extensions = append(extensions, &extension.ServerNameOffer{ServerName: cfg.ServerName})
+	if sni := dtlsflight.SNIServerName(cfg.ServerName); len(sni) > 0 {
+		extensions = append(extensions, &extension.ServerNameOffer{ServerName: sni})
 	}
 
 	if len(cfg.SupportedProtocols) > 0 {
